@@ -12,7 +12,7 @@ SDEFS = ["MIR_NO_IO=1", "MIR_NO_INTERP"]
 
 # fprintf stub: format loop (longest format of the output code is 41 characters), %s loop (names <= 7 characters)
 WLOOPS = {"h_fprintf#0": 48, "h_fprintf#1": 4, "h_fprintf#2": 8, "h_sprintf#0": 8,
-          "MIR_output_str#0": 4, "memcpy#0": 3, "memcpy#1": 9, "memcmp#0": 9, "memset#0": 8, "memset#1": 40,
+          "MIR_output_str#0": 4, "memcpy#0": 3, "memcpy#1": 12, "memcmp#0": 9, "memset#0": 8, "memset#1": 40,
           "strlen#0": 9, "strcmp#0": 6, "strncmp#0": 6,
           "HTAB_size_t_do#0": 13, "HTAB_string_t_do#0": 13, "h_setup#7": 7,
           "output_func_proto#0": 4, "output_func_proto#1": 5, "output_vars#0": 4, "MIR_output_item#0": 5,
